@@ -33,7 +33,8 @@ func TestVerifC02Replicas(t *testing.T) {
 		verifRunCase(rt, k, "C02", cfg, func(s *verifSim) {
 			s.enabledOnly(map[string]bool{"C02": true})
 			w := verifScriptWeights{commit: 12, retry: 3, failover: 5, reinstall: 3, crash: 2, restart: 3, isolate: 3, cut: 4, heal: 3, drop: 5, flush: 3, staleCommit: 1, cleanFailover: 2, pageCut: 3, divergentTail: 4, doubleFork: 3}
-			st := verifRunScript(rt, k, s, verifScriptOpts{prop: "C02", enabled: map[string]bool{"C02": true}, weights: w, steps: kit.Scale("C02STEPS", 30, 45), preSeed: verifPreSeed()})
+			st := verifRunScript(rt, k, s, verifScriptOpts{prop: "C02", enabled: map[string]bool{"C02": true}, weights: w, steps: kit.Scale("C02STEPS", 30, 45), preSeed: verifPreSeed(),
+				outageBudget: rapid.SampledFrom([]int{0, 0, n - 1}).Draw(rt, "outageBudget")})
 			k.SetNonTrivial(st.nontrivialC02)
 			k.LabelIf(st.acks > 0, "≥1 acknowledged commit")
 			k.LabelIf(cfg.Pebble, "pebble stores")
@@ -301,7 +302,7 @@ func TestVerifC04Authority(t *testing.T) {
 		cfg := verifSimConfig{N: n, Q: q, Channels: rapid.IntRange(1, 2).Draw(rt, "channels"), RetainedCommands: 8, PageBytes: 4096}
 		verifRunCase(rt, k, "C04", cfg, func(s *verifSim) {
 			s.enabledOnly(map[string]bool{"C04": true})
-			w := verifScriptWeights{commit: 8, retry: 2, failover: 6, reinstall: 2, crash: 1, restart: 2, isolate: 1, cut: 1, heal: 2, drop: 1, flush: 2, staleCommit: 6, badInstall: 6, fence: 4, cleanFailover: 1}
+			w := verifScriptWeights{commit: 8, retry: 2, failover: 6, reinstall: 2, crash: 3, restart: 5, isolate: 1, cut: 1, heal: 2, drop: 1, flush: 2, staleCommit: 6, badInstall: 6, fence: 4, cleanFailover: 1}
 			st := verifRunScript(rt, k, s, verifScriptOpts{prop: "C04", enabled: map[string]bool{"C04": true}, weights: w, steps: kit.Scale("C04STEPS", 30, 45), preSeed: verifPreSeed()})
 			k.SetNonTrivial(st.nontrivialC04)
 			k.LabelIf(st.staleRejected > 0, "proposal under a non-installed authority rejected")
